@@ -184,9 +184,9 @@ Proof.
               apply N.eqb_eq in E; contradiction.
           + rewrite amem_arem_neq; auto. apply (ps_fm _ _ _ _ P); auto.
           + unfold ttl_after, ttl_due. rewrite Ed, memb_cons_eq.
-            rewrite (ps_now _ _ _ _ P) in Er. rewrite <- Hf1 in Er. rewrite Er, andb_true_r.
+            rewrite (ps_now _ _ _ _ P) in Er. rewrite <- Hf1. rewrite Er, andb_true_r.
             destruct (is_persisted f); cbn.
-            * rewrite Ef, Hf1. reflexivity.
+            * rewrite Ef. reflexivity.
             * apply aget_arem_eq.
           + apply (ps_now _ _ _ _ P).
           + apply (ps_cap _ _ _ _ P).
@@ -196,13 +196,13 @@ Proof.
             apply N.eqb_eq in E. contradiction.
           + apply (ps_fm _ _ _ _ P); auto.
           + unfold ttl_after, ttl_due. rewrite Ed, memb_cons_eq.
-            rewrite (ps_now _ _ _ _ P) in Er. rewrite <- Hf1 in Er. rewrite Er, andb_false_r.
-            rewrite Ef, Hf1. reflexivity.
+            rewrite (ps_now _ _ _ _ P) in Er. rewrite <- Hf1. rewrite Er, andb_false_r.
+            rewrite Ef. reflexivity.
           + apply (ps_now _ _ _ _ P).
           + apply (ps_cap _ _ _ _ P).
           + rewrite (ps_len _ _ _ _ P). lia. }
       destruct E2 as (Eo & En & Enow & Ecap & Elen).
-      assert (R2 : roomy_s s2) by (eapply roomy_shrink; eauto).
+      assert (R2 : roomy_s s2) by (apply (roomy_shrink s s2 R Ecap Elen)).
       specialize (IH (scanned + f_size f1) s2 W2 R2 NDt). cbn zeta in IH.
       destruct IH as (IHd & IHn & IHc). repeat split; try congruence.
       intros m. rewrite IHd. destruct (N.eq_dec m n) as [->|Ne].
